@@ -572,9 +572,18 @@ VM_EXAMPLES = [
 # run
 # ------------------------------------------------------------------------------------------------
 def _work(case):
-    cap, hist = case
+    """(cap, history, model answer) -> compact verdict; the oracle and the comparison run in the worker"""
+    cap, hist, ans = case
     try:
-        return run_impl(hist, cap)
+        res = run_impl(hist, cap)
+        msteps, mstate = parse_model(ans, len(hist) + 1)
+        orc = oracle(hist, res)
+        diff = compare(hist, res, msteps)
+        outcomes = sorted({t.split(":")[1].split("@")[0].rstrip("0123456789")
+                           for s in res["steps"] for t in s["out"] if t[0] == "d"})
+        return dict(orc=orc, diff=diff, outs=sum(len(s["out"]) for s in res["steps"]), closed=not mstate["open"],
+                    crash=bool(res.get("errors")), outcomes=outcomes,
+                    impl=[s["out"] for s in res["steps"]] if (orc or diff) else None)
     except Exception as e:  # noqa
         import traceback
         return dict(harness_error=type(e).__name__ + ": " + str(e)[:200] + traceback.format_exc()[-600:])
@@ -685,24 +694,20 @@ def run(ctx):
     for name, cases in streams:
         lines = [model_line(cap, h + [["A", TAIL]]) for cap, h in cases]
         answers = drv.batch(lines)
-        results = run_many(cases, workers)
+        results = run_many([(cap, h, a) for (cap, h), a in zip(cases, answers)], workers)
         for (cap, hist), ans, res in zip(cases, answers, results):
             if "harness_error" in res:
                 viols.append(violation("harness-error", "implementation runner failed: " + res["harness_error"], False,
                                        cap=cap, history=hist))
                 continue
-            msteps, mstate = parse_model(ans, len(hist) + 1)
-            orc = oracle(hist, res)
-            diff = compare(hist, res, msteps)
-            outs = sum(len(s["out"]) for s in res["steps"])
+            orc, diff = res["orc"], res["diff"]
             kinds = {e[0] for e in hist}
-            cov.case(json.dumps([cap, hist]), outs > 0,
-                     sample=dict(stream=name, cap=cap, history=hist, impl=[s["out"] for s in res["steps"]])
+            cov.case(json.dumps([cap, hist]), res["outs"] > 0,
+                     sample=dict(stream=name, cap=cap, history=hist, outputs=res["outs"], outcomes=res["outcomes"])
                      if cov.evaluations % 4099 == 0 else None,
                      stream=name, cap=cap, length=len(hist), events_used="".join(sorted(k[0] for k in kinds)),
-                     closed_by_end=not mstate["open"],
-                     crash_in_data_received=bool(res.get("errors")))
-            for o in {t.split(":")[1].split("@")[0].rstrip("0123456789") for s in res["steps"] for t in s["out"] if t[0] == "d"}:
+                     closed_by_end=res["closed"], crash_in_data_received=res["crash"])
+            for o in res["outcomes"]:
                 cov.hist["outcome_seen"][o] += 1
             if orc:
                 n_oracle += 1
